@@ -25,9 +25,11 @@ let n_of_hex (s : string) : M.n =
 
 let n_of_int (i : int) : M.n = n_of_hex (Printf.sprintf "%x" i)
 
+let byte_table : M.n array = Array.init 256 n_of_int
+
 let bytes_of_hex (s : string) : M.n list =
   let l = String.length s / 2 in
-  let rec go i acc = if i < 0 then acc else go (i - 1) (n_of_int (hexval s.[2*i] * 16 + hexval s.[2*i+1]) :: acc) in
+  let rec go i acc = if i < 0 then acc else go (i - 1) (byte_table.(hexval s.[2*i] * 16 + hexval s.[2*i+1]) :: acc) in
   go (l - 1) []
 
 let rec parse_items (toks : string list) : M.item list * string list =
